@@ -56,11 +56,18 @@ Definition val_eqb (a b : val) : bool :=
 Definition val_xor (a b : val) : val :=
   match a, b with Some x, Some y => Some (N.lxor x y) | _, _ => None end.
 
+(* unsigned rationals, as boost::rational<std::uint64_t> (hlim::ClockRational): durations are >= 0 and
+   frequencies > 0 by construction *)
+Definition uq := (N * positive)%type.
+Definition uQ (u : uq) : Q := Z.of_N (fst u) # snd u.
+Definition pq := (positive * positive)%type.
+Definition pQ (f : pq) : Q := Zpos (fst f) # snd f.
+
 (* what a suspended process is waiting for; travels with the pending resumption so that the log can
    say which wait ended (the C++ coroutine knows this by its program counter) *)
 Inductive wake :=
 | WkClk (c : clk) (ph : phase)
-| WkFor (q : Q)
+| WkFor (q : uq)
 | WkChange (mask : list sig)
 | WkStable
 | WkJoin (k : nat).
@@ -72,7 +79,7 @@ Record ghost := mk_ghost { g_t0 : Q; g_id : N; g_refs : list val; g_cur : list v
 
 Inductive step :=
 | SWaitClk (c : clk) (ph : phase)
-| SWaitFor (q : Q)
+| SWaitFor (q : uq)
 | SWaitChange (mask : list sig)
 | SWaitStable
 | SRead (s : sig)
@@ -83,13 +90,13 @@ Definition script := list step.
 
 Record config := mk_config {
   c_two : bool;            (* two clocks?  otherwise every register is clocked by clock A *)
-  c_fa : Q; c_fb : Q;      (* absolute frequencies *)
+  c_fa : pq; c_fb : pq;    (* absolute frequencies *)
   c_subs : list script     (* fork targets *)
 }.
 Definition eff_clk (cfg : config) (c : clk) : clk := if c_two cfg then c else CA.
 Definition half_period (f : Q) : Q := Qred ((1 # 2) / f).
 Definition clk_half (cfg : config) (c : clk) : Q :=
-  match c with CA => half_period (c_fa cfg) | CB => half_period (c_fb cfg) end.
+  match c with CA => half_period (pQ (c_fa cfg)) | CB => half_period (pQ (c_fb cfg)) end.
 Definition tadd (a b : Q) : Q := Qred (a + b).
 
 (* ------------------------------------------------------------------------- *)
@@ -326,8 +333,8 @@ Definition resume_event (t : Q) (mt : N) (ph : phase) (pid : nat) (id : N) (w : 
   mk_event SimProcResume t mt ph CA false pid id w g.
 
 (* simulationProcessSuspending(handle, WaitFor&) *)
-Definition suspend_waitfor (pid : nat) (q : Q) (s : state) : state :=
-  let t := tadd (s_now s) q in
+Definition suspend_waitfor (pid : nat) (q : uq) (s : state) : state :=
+  let t := tadd (s_now s) (uQ q) in
   let mt := if Qeq_bool t (s_now s) && phase_eqb (s_phase s) AFTER then N.succ (s_mt s) else 0%N in
   let (id, s1) := fresh_id s in
   push_event (resume_event t mt AFTER pid id (WkFor q) (mk_ghost (s_now s) id [] [])) s1.
